@@ -40,7 +40,9 @@ class ResourceMemory:
     remaining_patch: patches.Patch | None = None  # None to save memory
 
     # For resuming handlers tracking and deciding on should they be called or not.
-    noticed_by_listing: bool = False
+    # None means "not known yet": the memory was created aside of the event processing (by an admission
+    # request), and the first processed event of the object will tell how the object is noticed.
+    noticed_by_listing: bool | None = None
     fully_handled_once: bool = False
     resumed_handlers: set[ids.HandlerId] = dataclasses.field(default_factory=set)  # in this process
 
@@ -96,7 +98,7 @@ class ResourceMemories(admission.MemoGetter, daemons.DaemonsMemoriesIterator):
             raw_body: bodies.RawBody,
             *,
             memobase: ephemera.AnyMemo | None = None,
-            noticed_by_listing: bool = False,
+            noticed_by_listing: bool | None = None,
             ephemeral: bool = False,
     ) -> ResourceMemory:
         """
@@ -113,6 +115,8 @@ class ResourceMemories(admission.MemoGetter, daemons.DaemonsMemoriesIterator):
         key = self._build_key(raw_body)
         if key in self._items:
             memory = self._items[key]
+            if memory.noticed_by_listing is None:
+                memory.noticed_by_listing = noticed_by_listing
         else:
             if memobase is None:
                 memory = ResourceMemory(noticed_by_listing=noticed_by_listing)
